@@ -60,14 +60,16 @@ NumText(v) ==
 
 (***************************** datetimes *****************************)
 \* ISO text of local (d, ms) at UTC offset `off` minutes: YYYY-MM-DDTHH:MM:SS[.mmm]+HH:MM
-DtText(d, ms, off) ==
+\* (DtTextUs: a datetime that carries a sub-millisecond residue always prints its millisecond field, ".000" included)
+DtTextF(d, ms, off, force) ==
     LET c == CivilFromDays(d)
         h == ms \div 3600000   mi == (ms \div 60000) % 60   s == (ms \div 1000) % 60   f == ms % 1000
         ao == Abs(off)
     IN PadNat(c.y, 4) \o <<cMinus>> \o PadNat(c.m, 2) \o <<cMinus>> \o PadNat(c.d, 2) \o <<cT>>
        \o PadNat(h, 2) \o <<cColon>> \o PadNat(mi, 2) \o <<cColon>> \o PadNat(s, 2)
-       \o (IF f # 0 THEN <<cDot>> \o PadNat(f, 3) ELSE <<>>)
+       \o (IF f # 0 \/ force THEN <<cDot>> \o PadNat(f, 3) ELSE <<>>)
        \o <<IF off < 0 THEN cMinus ELSE cPlus>> \o PadNat(ao \div 60, 2) \o <<cColon>> \o PadNat(ao % 60, 2)
+DtText(d, ms, off) == DtTextF(d, ms, off, FALSE)
 
 \* the local-time conversion behind the ISO text is specified away from the ends of the calendar
 \* (first and last year: the host's time-zone conversion may not exist there)
@@ -141,7 +143,7 @@ JsonText(v, heap, off) ==
       [] v.t = "bool"   -> OK(IF v.v THEN S_true ELSE S_false)
       [] v.t = "num"    -> IF v.f = "x" THEN NoText ELSE NumText(v)
       [] v.t = "str"    -> OK(JsonString(v.v))
-      [] v.t = "dt"     -> IF DtTextDefined(v) THEN OK(JsonString(DtText(v.d, v.ms, off))) ELSE NoText
+      [] v.t = "dt"     -> IF DtTextDefined(v) THEN OK(JsonString(DtTextF(v.d, v.ms, off, UsOf(v) # 0))) ELSE NoText
       [] v.t = "fn"     -> OK(JsonString(S_function))
       [] v.t = "array"  -> LET r == JsonElems(Elems(v, heap), 1, heap, off) IN
                            IF r.ok THEN OK(<<cLBracket>> \o r.s \o <<cRBracket>>) ELSE NoText
@@ -155,7 +157,7 @@ ToText(v, heap, off) ==
       [] v.t = "str"   -> OK(v.v)
       [] v.t = "bool"  -> OK(IF v.v THEN S_true ELSE S_false)
       [] v.t = "num"   -> NumText(v)
-      [] v.t = "dt"    -> IF DtTextDefined(v) THEN OK(DtText(v.d, v.ms, off)) ELSE NoText
+      [] v.t = "dt"    -> IF DtTextDefined(v) THEN OK(DtTextF(v.d, v.ms, off, UsOf(v) # 0)) ELSE NoText
       [] v.t \in {"array", "object"} -> JsonText(v, heap, off)
       [] v.t = "fn"    -> OK(S_function)
       [] v.t = "regex" -> OK(S_regex)
